@@ -430,10 +430,16 @@ def _strip(o):
     return None if o is None else {"k": o["k"], "v": o["v"], "fn": o["fn"], "ref": o["ref"], "md": o["md"], "ch": [[k, _strip(c)] for k, c in o["ch"]]}
 
 
-def classify(real, model_broken_set, a_agree, parse_agree):
+def classify(real, model_broken_set, a_agree, parse_agree, fired=()):
+    """real: formula -> holds on the library's behaviour.  A failing case is EXPLAINED (known) iff the library's parse and re-parse
+    are exactly the as-is specification's and every failing formula fails in the specification too.  One relaxation: with the
+    re-parsed tree exactly as predicted and a deviation firing, a difference found in a merge history is attributed to that
+    deviation even where AyMerge does not reproduce the difference (AyMerge takes two structurally equal empty containers for the
+    one object `!clear` hands over; the merge itself is C02-C05's subject)."""
     real_broken = {k for k, v in real.items() if not v}
     if real_broken:
-        if a_agree and parse_agree and real_broken <= model_broken_set:
+        rest = real_broken - model_broken_set
+        if a_agree and parse_agree and (not rest or (rest == {"ic"} and fired)):
             return "known"
         return "viol"
     if model_broken_set:
@@ -495,7 +501,7 @@ def _replay_row(u, row, seed, nsample):
 
     j = judge_pair(rt, model, ctxs_of, text0, safe, rng, nsample)
     mb = model_broken_of(row)
-    cls = classify(j["real"], mb, a_agree, parse_agree)
+    cls = classify(j["real"], mb, a_agree, parse_agree, row["fired"])
     res.update(cls=cls, real=j["real"], model_broken=sorted(mb), a_agree=a_agree, parse_agree=parse_agree, ctx_run=j["ctx_run"],
                nontrivial=bool(rt["text1"] and "!" in rt["text1"]) or rt["out"] != "ok", changed=rt["out"] != "ok" or rt["p0"] != rt["p1"])
     if cls in ("viol", "drift") or (cls == "known" and res["fired"]):
@@ -775,6 +781,9 @@ MUTATIONS = [  # (deviation switch or design mutation, universe, source safety)
     ("SafeTagTrue", "U_MutSafe", False), ("NullDropsFlags", "U_MutKinds", True), ("ClearNoValue", "U_MutKinds", True),
     ("PathNoRefWraps", "U_MutKinds", True), ("ReprQuoting", "U_MutKinds", True), ("ElideDelParent", "U_MutDel", True),
     ("mut:DropMdWithFlag", "U_MutKinds", True),
+    # each remaining formula refuted on its own (TLC stops at the first violated invariant)
+    ("NullDropsFlags/Inv_SameMd", "U_MutKinds", True), ("ReprQuoting/Inv_SameValue", "U_MutKinds", True),
+    ("PathNoRefWraps/Inv_DumpStable", "U_MutKinds", True), ("mut:DropMdWithFlag/Inv_SameMd", "U_MutKinds", True),
 ]
 
 
@@ -855,10 +864,12 @@ def run(prop, tier, seed, replay, keep):
             upath, n = upath_of("mut_" + uname, [uname])
             wd = tlc.workdir("C18_mut")
             try:
-                if sw.startswith("mut:"):
-                    cfg = cfg_mc(dev=(), safes="{TRUE}" if safe else "{FALSE}", st3=False, emit=False, mutation=sw[4:])
+                name, _, only = sw.partition("/")
+                invs = [only] if only else INVS
+                if name.startswith("mut:"):
+                    cfg = cfg_mc(dev=(), safes="{TRUE}" if safe else "{FALSE}", st3=False, emit=False, mutation=name[4:], invariants=invs)
                 else:
-                    cfg = cfg_mc(dev=(sw,), safes="{TRUE}" if safe else "{FALSE}", st3=False, emit=False)
+                    cfg = cfg_mc(dev=(name,), safes="{TRUE}" if safe else "{FALSE}", st3=False, emit=False, invariants=invs)
                 r = tlc.run("MC_Dump", cfg, wd, workers=2, timeout=tmo, env={"UNIVERSE_FILE": upath}, heap="2g")
             finally:
                 if not keep:
@@ -1017,7 +1028,7 @@ def run(prop, tier, seed, replay, keep):
                     # a recorded history that tells the pair apart, re-done by TLC on the logged trees with the same result
                     if not v["cbad"] and any(not c["same"] for c in t["ctx"]):
                         mb.add("ic")
-            cls = classify(real, mb, v["cmp"] == "equal", True)
+            cls = classify(real, mb, v["cmp"] == "equal", True, v["fired"])
             if cls == "viol" and v["cmp"] == "differs" and _only_repr_quoting(t):
                 cls = "known"
                 v["fired"] = sorted(set(v["fired"]) | {"ReprQuoting"})
